@@ -2,6 +2,7 @@ import Driver.C11
 import Driver.Codec
 import Driver.C09
 import Driver.C08
+import Driver.C02
 
 def main (args : List String) : IO UInt32 := do
   match args with
@@ -9,4 +10,5 @@ def main (args : List String) : IO UInt32 := do
   | ["codec"] => Redproxy.Driver.Codec.main; return 0
   | ["c09"] => Redproxy.Driver.C09.main; return 0
   | ["c08"] => Redproxy.Driver.C08.main; return 0
+  | ["c02"] => Redproxy.Driver.C02.main; return 0
   | _ => IO.eprintln "usage: rpmodel <mode>  (cases on stdin, one output line per case on stdout)"; return 2
